@@ -27,6 +27,7 @@ SESSIONS = {
                      C04=12000, C05=6000, C06=16000, C07=16000, C09=8000),
 }
 MAX_MINIMISE_CLASSES = 6
+PER_CLASS_TRIES = 8
 
 
 def _worker(args):
@@ -159,35 +160,66 @@ def triage(prop, tier, base_seed, recs, jobs, log=print):
     for r in failing:
         by_class.setdefault(tuple(r["violation"]["klass"]), []).append(r)
     reported, known_hits, unrepro = [], {}, []
+    # Pre-filter on the RAW violation: sessions that already match a listed finding are counted, all others
+    # stay candidates (so nothing is ever suppressed merely for sharing a class with a known finding).
+    for klass in list(by_class):
+        keep = []
+        for r in by_class[klass]:
+            k = match_known(known, prop, r["violation"]["v"], unjson(r["violation"]["ops"]), unjson(r["violation"]["knobs"]))
+            if k is not None:
+                known_hits[k["id"]] = known_hits.get(k["id"], 0) + 1
+            else:
+                keep.append(r)
+        if keep:
+            by_class[klass] = keep
+        else:
+            del by_class[klass]
     classes = sorted(by_class.items(), key=lambda kv: kv[1][0]["i"])
-    todo = []
-    for klass, rs in classes[:MAX_MINIMISE_CLASSES]:
-        r = rs[0]
-        todo.append((prop, r["seed"], tier, r["violation"]["ops"], r["violation"]["knobs"], list(klass), 300))
+    # Several sessions per class are minimised: a violation that matches a KNOWN finding must not hide a
+    # different violation of the same class behind it.
+    todo, owner = [], []
+    for ci, (klass, rs) in enumerate(classes[:MAX_MINIMISE_CLASSES]):
+        for r in rs[:PER_CLASS_TRIES]:
+            todo.append((prop, r["seed"], tier, r["violation"]["ops"], r["violation"]["knobs"], list(klass), 300))
+            owner.append((ci, r))
     results = []
     if todo:
         ctx = mp.get_context("fork")
         with cf.ProcessPoolExecutor(max_workers=min(jobs, len(todo)), mp_context=ctx) as ex:
-            results = list(ex.map(_minimise_job, todo, timeout=1800))
-    for (klass, rs), job, res in zip(classes, todo, results):
-        r = rs[0]
-        if not res.get("ok"):
-            unrepro.append(dict(klass=klass, seed=r["seed"], why=res.get("why")))
-            continue
-        ops, knobs = unjson(res["ops"]), unjson(res["knobs"])
-        k = match_known(known, prop, res["v"], ops, knobs)
-        if k is not None:
-            known_hits[k["id"]] = known_hits.get(k["id"], 0) + len(rs)
-            continue
-        d8 = hashlib.sha256(json.dumps(res["ops"], sort_keys=True).encode()).hexdigest()[:8]
-        path = os.path.join(VERIF_DIR, "replays", f"{prop}-{r['seed']}-{d8}.json")
-        v = Violation(res["v"]["property"], res["v"]["invariant"], res["v"]["op"], res["v"]["step"], res["v"]["message"])
-        S.write_replay(path, prop, r["seed"], tier, knobs, ops, v, res["digest"], res["n0"])
-        fr = fresh_replay(path)
-        if fr.get("reproduced") and fr.get("digest") == res["digest"]:
-            reported.append(dict(path=path, klass=klass, sessions=len(rs), v=res["v"], n_ops=len(ops)))
-        else:
-            unrepro.append(dict(klass=klass, seed=r["seed"], why="fresh-interpreter replay differs", detail=fr, path=path))
+            results = list(ex.map(_minimise_job, todo, timeout=3600))
+    per_class: dict = {}
+    for (ci, r), res in zip(owner, results):
+        per_class.setdefault(ci, []).append((r, res))
+    for ci, (klass, rs) in enumerate(classes[:MAX_MINIMISE_CLASSES]):
+        done = False
+        n_known = 0
+        last_known = None
+        for r, res in per_class.get(ci, []):
+            if not res.get("ok"):
+                unrepro.append(dict(klass=klass, seed=r["seed"], why=res.get("why")))
+                done = True
+                break
+            ops, knobs = unjson(res["ops"]), unjson(res["knobs"])
+            k = match_known(known, prop, res["v"], ops, knobs)
+            if k is not None:
+                n_known += 1
+                last_known = k
+                known_hits[k["id"]] = known_hits.get(k["id"], 0) + 1
+                continue
+            d8 = hashlib.sha256(json.dumps(res["ops"], sort_keys=True).encode()).hexdigest()[:8]
+            path = os.path.join(VERIF_DIR, "replays", f"{prop}-{r['seed']}-{d8}.json")
+            v = Violation(res["v"]["property"], res["v"]["invariant"], res["v"]["op"], res["v"]["step"], res["v"]["message"])
+            S.write_replay(path, prop, r["seed"], tier, knobs, ops, v, res["digest"], res["n0"])
+            fr = fresh_replay(path)
+            if fr.get("reproduced") and fr.get("digest") == res["digest"]:
+                reported.append(dict(path=path, klass=klass, sessions=len(rs), v=res["v"], n_ops=len(ops)))
+            else:
+                unrepro.append(dict(klass=klass, seed=r["seed"], why="fresh-interpreter replay differs", detail=fr, path=path))
+            done = True
+            break
+        if not done and last_known is not None and len(rs) > n_known:
+            # the sessions beyond PER_CLASS_TRIES were not minimised: counted under the same entry, and said so
+            known_hits[last_known["id"] + " (further sessions of the class, not minimised)"] = len(rs) - n_known
     # classes beyond the minimisation cap: still violations, reported from unminimised traces
     for klass, rs in classes[MAX_MINIMISE_CLASSES:]:
         r = rs[0]
